@@ -647,7 +647,17 @@ fn run_many(c: &ManyEntries, obs: &mut Obs) -> CheckResult {
         ),
     ];
     for (what, r) in decoded {
-        let m = r.map_err(|e| Fail::new(format!("{} refused a manifest with {} valid entries: {}", what, c.count, e)))?;
+        // C14 speaks of the manifests the library decodes: a decoder may refuse a list this
+        // long (counted); up to 4096 entries acceptance is demanded as for any valid manifest
+        let m = match r {
+            Ok(m) => m,
+            Err(e) if c.count <= 4096 => return Err(Fail::new(format!("{} refused a manifest with {} valid entries: {}", what, c.count, e))),
+            Err(_) => {
+                obs.label("refused");
+                continue;
+            }
+        };
+        obs.label("decoded");
         let it = no_panic("iter", || m.iter().count())?;
         let uris = no_panic("iter_uris", || m.iter_uris(&base).count())?;
         ensure_sig!(
